@@ -83,6 +83,22 @@ Definition rearrange_strict (zx zy : list Q) (sx sy dx dy : list nat) : bool :=
   let '(w0, ws) := rearrange_waypoints zx zy sx sy dx dy in
   forallb (fun w => distinct_q (fst w) && distinct_q (snd w)) ws.
 
+(* ---------- stdlib.waypoints.move_by_waypoints ---------- *)
+Definition same_shape (a b : list Q * list Q) : bool :=
+  (length (fst a) =? length (fst b)) && (length (snd a) =? length (snd b)).
+(* stdlib.waypoints.move_by_waypoints: set_loc on the first waypoint, optionally switch everything on, move through the others
+   (a move to a grid of another shape is an error), optionally switch everything off *)
+Definition waypoints_model (ws : list (list Q * list Q)) (pick drop : bool) : option (list spath) :=
+  match ws with
+  | [] => Some []
+  | w0 :: rest =>
+      if negb (forallb (same_shape w0) rest) then None else
+      let head := if pick then [SWay [w0]; SSwitch On SALL SALL; SWay (w0 :: rest)] else [SWay (w0 :: rest)] in
+      let tail := if drop then [SSwitch Off SALL SALL; SWay [last rest w0]] else [] in
+      Some [mkspath (length (fst w0)) (length (snd w0)) (head ++ tail)]
+  end.
+
+
 (* ---------- where rearrange can park: the zone-wide conditions under which every documented call is accepted (Proofs/LibMovesProofs.v) ---------- *)
 Fixpoint asc_qb (l : list Q) : bool :=
   match l with
